@@ -189,6 +189,8 @@ def families(tier):
         ("generated", lambda: (dict(devs=list(c)) for c in enumio.combos(DEVS, dmax)), 1),
         ("generated-pairs-reduced", lambda: (dict(devs=list(c)) for c in itertools.combinations(range(0, len(DEVS), 2), 2)) if q else iter(()), 1),
         ("corpus", lambda: (dict(file=f) for f in (CORPUS_Q if q else CORPUS_T)), 1),
+        # text presentations: short lines / no element columns / CRLF / other records (PDB) paired with reversed / quoted / extra / tab-separated columns (mmCIF)
+        ("presentations", lambda: (dict(devs=list(c), variant=v) for c in enumio.combos(DEVS, 1) for v in range(4)), 1),
     ]
 
 
@@ -277,8 +279,13 @@ def run_case(case):
     fmts = ["mmCIF"] + (["PDB"] if corpus.pdb_expressible(t) and all(a["chain"].strip() for a in t) else [])
     for fmt in fmts:
         path = os.path.join(sd, "c15." + ("pdb" if fmt == "PDB" else "cif"))
-        with open(path, "w") as f:
-            f.write(enumio.emit_pdb(t) if fmt == "PDB" else enumio.emit_cif(t))
+        text = enumio.emit_pdb(t) if fmt == "PDB" else enumio.emit_cif(t)
+        if "variant" in case:
+            # another legal presentation of the same text (one variant per format, paired by position in the two lists)
+            vi = case["variant"]
+            text = enumio.pdb_variant(text, enumio.PDB_VARIANTS[vi]) if fmt == "PDB" else enumio.cif_variant(text, enumio.CIF_VARIANTS[vi])
+        with open(path, "w", newline="") as f:
+            f.write(text)
         r1 = observe(read_v1, path)
         if r1[0] == "exc":
             out.append(viol("v1-%s-raises:%s" % (fmt, r1[1]), "read_3d_structure raised %s" % r1[2]))
